@@ -22,10 +22,11 @@ from .report import Check, analysis_error
 # property whose statement it falsifies.  (Findings only; an analysis error inside a dependency is noted, the dependency's own
 # check reports it.)
 DEPENDS = {
-    'C08': ['C02', 'C03', 'C04', 'C07'],
-    'C09': ['C02', 'C04'],
-    'C10': ['C02', 'C04'],
-    'C11': ['C04', 'C03'],        # C05 is evaluated inside sa.rules.c11 itself (R2)
+    'C08': ['C02', 'C03', 'C04', 'C07', 'C19F'],
+    'C09': ['C02', 'C04', 'C19F'],
+    'C10': ['C02', 'C04', 'C19F'],
+    'C06': ['C05'],
+    'C11': ['C04', 'C03', 'C19F'],        # C05 is evaluated inside sa.rules.c11 itself (R2)
     'C12': ['C15'],
     'C17': ['C14', 'C15'],
     'C18': ['C14', 'C15'],
@@ -37,7 +38,7 @@ DEPENDS = {
 def run_dependencies(chk) -> None:
     from .index import AnalysisError
     for dep in DEPENDS.get(chk.pid, []):
-        shadow = Check(dep, chk.tier, chk.repo, chk.seed)
+        shadow = Check(dep[:3], chk.tier, chk.repo, chk.seed)
         rule = f'{chk.pid}.D'
         try:
             importlib.import_module(f'sa.rules.{dep.lower()}').run(shadow)
